@@ -115,20 +115,20 @@ var idleStates = map[string]string{
 // goroutine itself - it cannot be the one that holds a library lock while
 // making progress.
 var waitFuncs = map[string]bool{
-	"(*FSimpleServer).acceptLoop":                          true,
-	"(*FSimpleServer).Serve":                               true,
-	"(*fNatsServer).Serve":                                 true,
-	"(*fNatsServer).worker":                                true,
-	"(*fNatsServer).handler":                               true,
-	"(*fNatsSubscriberTransport).worker":                   true,
-	"(*fNatsSubscriberTransport).putMessageToWorkerQueue":  true,
-	"(*fStompSubscriberTransport).processMessages":         true,
-	"(*fAdapterTransport).Request":                         true,
-	"(*fAdapterTransport).Oneway":                          true,
-	"(*fNatsTransport).Request":                            true,
-	"(*monitorRunner).run":                                 true,
-	"(*TFramedTransport).Read":                             true,
-	"(*TFramedTransport).readFrameHeader":                  true,
+	"(*FSimpleServer).acceptLoop":                         true,
+	"(*FSimpleServer).Serve":                              true,
+	"(*fNatsServer).Serve":                                true,
+	"(*fNatsServer).worker":                               true,
+	"(*fNatsServer).handler":                              true,
+	"(*fNatsSubscriberTransport).worker":                  true,
+	"(*fNatsSubscriberTransport).putMessageToWorkerQueue": true,
+	"(*fStompSubscriberTransport).processMessages":        true,
+	"(*fAdapterTransport).Request":                        true,
+	"(*fAdapterTransport).Oneway":                         true,
+	"(*fNatsTransport).Request":                           true,
+	"(*monitorRunner).run":                                true,
+	"(*TFramedTransport).Read":                            true,
+	"(*TFramedTransport).readFrameHeader":                 true,
 }
 
 // blockedCandidate: a goroutine whose top user frame is in the library and
